@@ -21,7 +21,7 @@ ENCODED = ['BaseConstructor.construct_document/construct_object (dispatch: exact
            'FullConstructor.construct_python_* (value-like), construct_python_name, find_python_name, find_python_module',
            'FullConstructor.make_python_instance / set_python_instance_state (as recorders: must be unreachable)',
            'loader classes FullLoader, CFullLoader (Python halves); yaml.full_load / full_load_all / load(FullLoader)']
-BOUNDS = {'quick': 'tag: any str len<=56 over all code points x 3 node kinds x {FullLoader, CFullLoader}; python/name: suffix len<=5; 12 placements',
+BOUNDS = {'quick': 'tag: any str len<=56 over all code points x 3 node kinds x {FullLoader, CFullLoader}; python/name: suffix len<=5; 16 placements',
           'thorough': 'tag len<=72; python/name: suffix len<=7'}
 OUTSIDE = 'text -> node for CFullLoader (libyaml); the real sys.modules (replaced by a 3-module stand-in so that membership stays symbolic)'
 ASSUMPTIONS = ['M1 placeholder error messages', 'yaml.constructor.sys replaced by a stand-in whose modules dict holds three namespace objects',
@@ -445,7 +445,7 @@ def jobs(tier):
                       budget=120, bounds='%s + suffix len<=%d, 3 kinds, 2 classes' % (FORBIDDEN_PREFIXES[w][len(T):], X)))
     js.append(Job('history', history, [lambda which, x, first, lc, kind: 0 <= which <= 4 and len(x) <= 3 and 0 <= first <= 2 and 0 <= lc <= 1 and 0 <= kind <= 2],
                   budget=200, bounds='trusted load (UnsafeLoader / Loader / CUnsafeLoader) of one of the 4 object-building prefixes or a user prefix + suffix len<=3, then FullLoader / CFullLoader on the same tag, 3 node kinds'))
-    for c in range(12):
+    for c in range(16):
         js.append(Job('context/%d' % c, context, [lambda tag, kind, ctx, _c=c: ctx == _c and _tag_ok(tag, L) and 0 <= kind <= 2],
                       budget=120, bounds='placement %d, len(tag)<=%d, 3 kinds' % (c, L)))
     return js
